@@ -1,7 +1,10 @@
-import Cutadapt.Stats
-open Cutadapt
-set_option pp.proofs false
-example (o : Opts) (n1 n2 : List String) : makeSteps o n1 n2 = .error .cmdline := by
-  unfold makeSteps
+import Cutadapt.Proofs.StepsMake
+open Cutadapt Cutadapt.Steps
+example {o : Opts} {ads : List Matchable} {p : SinglePipeline} {f : Files}
+    (h : makeSingle o ads = .ok (p, f)) : makeSteps o (namesOf ads) [] = .ok (p.steps, f) ∧ p.ads = ads := by
+  unfold makeSingle at h
+  simp only [bind, Except.bind, pure, Except.pure] at h
+  repeat' split at h
+  all_goals try (simp at h; done)
   trace_state
   sorry
